@@ -14,6 +14,11 @@ def responseFactsOp : List String → Option String
         let o := compute r t key
         some s!"isa={tf o.isa} msov={tf o.mso} dkey={o.dkey} dsa={tf o.dsa} dig={tf o.dig} dt={tf o.dt}"
       | _, _ => some "not-cbor"
+  | ["facts.readersig", dr, transcript, key] => do
+      let db ← bytesOfHex dr; let tb ← bytesOfHex transcript; let kb ← bytesOfHex key
+      match decodeValue db, decodeValue tb with
+      | some d, some t => some (tf (readerSigAccepts d t (if kb.length == 64 then some (fromBe (kb.take 32), fromBe (kb.drop 32)) else none)))
+      | _, _ => some "not-cbor"
   -- does `cbor::from_slice::<ciborium::Value>` accept these bytes (one item from the front)?
   | ["cbor.valueok", h] => (bytesOfHex h).map fun b => tf (decodeValue b).isSome
   | _ => none
